@@ -47,8 +47,11 @@ def _one_file(wd: str, cases: List[Dict], fileno: int) -> List[Dict]:
         qpos = {p.siteId: p for p in qm.getPositionsWithSiteIds(c["rev"])}
         pos = [ScoredAlignedPair(AlignedPair(rpos[r], qpos[q], 0), 1000.) for r, q in c["pairs"]]
         conf = 1000. * len(pos) - 0.25 * (k % 7) - 0.005 * (k % 3)
-        seg = AlignmentSegment(pos, conf, Peak(0, 1.), pos)
-        rows.append(AlignmentResultRow.create(SimpleNamespace(segments=[seg]), 2 * k + 1, 2 * k, qm.length, rm.length,
+        # the row's segments: one; a first / last segment of a single pair; halves
+        cuts = {0: [], 1: [1], 2: [len(pos) - 1], 3: [len(pos) // 2]}[k % 4]
+        bounds = [0] + [x for x in cuts if 0 < x < len(pos)] + [len(pos)]
+        segs = [AlignmentSegment(pos[a:b], conf if a == 0 else 0., Peak(0, 1.), pos) for a, b in zip(bounds, bounds[1:])]
+        rows.append(AlignmentResultRow.create(SimpleNamespace(segments=segs), 2 * k + 1, 2 * k, qm.length, rm.length,
                                               c["rev"]))
     out = os.path.join(wd, f"rt{fileno}.xmap")
     args = pipeline.make_args(pipeline.arg_list(rp, qp, out, "best"))
